@@ -53,7 +53,7 @@ def budget(tier):
 
 
 def strategy(tier):
-    op = st.tuples(st.sampled_from(OPS), st.integers(0, 8), st.integers(0, len(ARGS) - 1), st.integers(0, 5))
+    op = st.tuples(st.sampled_from(OPS), st.integers(0, 9), st.integers(0, len(ARGS) - 1), st.integers(0, 6))
     return st.builds(lambda ops: {"ops": [list(o) for o in ops]}, st.lists(op, max_size=40))
 
 
@@ -153,13 +153,28 @@ def family():
             Vertex.__init__(self, uid=uid, universes=universes, attributes={"name": repr(name)})
             init(self, name, **k)
 
+    class W(metaclass=S.semi_singleton_metaclass()):
+        """A class with a dispatching __new__ (the pathlib.Path idiom): W(...) yields an instance of the implementation
+        subclass W2 - still an instance of the class that was called."""
+
+        def __new__(cls, *a, **k):
+            return object.__new__(W2 if cls is W else cls)
+
+        __init__ = init
+
+    class W2(W):
+        pass
+
+    W.POLYMORPHIC = True
+
     # library objects as argument values: two law sets made alike (whether they are EQUAL is the library's call;
     # the model follows whatever == says)
     libobjs = {"<L1>": UniverseLaws(), "<L2>": UniverseLaws()}
-    return [A, B, C, D, E, F, G, H, V], ninit, hf, libobjs
+    return [A, B, C, D, E, F, G, H, V, W], ninit, hf, libobjs
 
 
-KWARGS = [{}, {"x": 1, "y": 2}, {"y": 2, "x": 1}, {"x": 2}, {"attrs": {"a": 1, "b": 2}}, {"attrs": {"b": 2, "a": 1}}]
+KWARGS = [{}, {"x": 1, "y": 2}, {"y": 2, "x": 1}, {"x": 2}, {"attrs": {"a": 1, "b": 2}}, {"attrs": {"b": 2, "a": 1}},
+          {"default": "red"}]     # a constructor keyword with an everyday name (the helper functions pass keywords through)
 
 
 def mkargs(ai, kw, libobjs=None):
@@ -185,7 +200,13 @@ def check_case(case):
 
     CL, ninit, hf, libobjs = family()
     NC = len(CL)
-    names = ["A", "B", "C", "D", "E", "F", "G", "H", "V"]
+    names = ["A", "B", "C", "D", "E", "F", "G", "H", "V", "W"]
+
+    def type_ok(typ, c):
+        """'an instance of the class that was called': exactly that class - or, for the class with the dispatching
+        __new__, the implementation subclass it chose"""
+        return typ is c or (getattr(c, "POLYMORPHIC", False) and issubclass(typ, c))
+
     lib = list(libobjs.values())
 
     def tok(a):
@@ -249,7 +270,7 @@ def check_case(case):
                     exp = model[c].get(k)
                     got = None if r is None else (getattr(r, "serial", None), type(r))
                     del r
-                    if (got is None) != (exp is None) or (got is not None and (got[0] != exp[0] or got[1] is not c)):
+                    if (got is None) != (exp is None) or (got is not None and (got[0] != exp[0] or not type_ok(got[1], c))):
                         raise Violation(
                             "check-disagrees-with-model",
                             f"{where}: check({names[ci]}, {a!r}, {kwargs}) returned {'None' if got is None else got[1].__name__ + ' serial ' + str(got[0])}, "
@@ -282,10 +303,10 @@ def check_case(case):
             ser, typ, truth = getattr(o, "serial", None), type(o), bool(o)
             del o
             if k in model[c]:
-                require(ser == model[c][k][0] and typ is c, "live-key-returned-other-instance", f"{where}: expected the live instance (serial {model[c][k][0]}) for key {k!r}, got {typ.__name__} serial {ser}")
+                require(ser == model[c][k][0] and type_ok(typ, c), "live-key-returned-other-instance", f"{where}: expected the live instance (serial {model[c][k][0]}) for key {k!r}, got {typ.__name__} serial {ser}")
                 require(ninit[0] == n0, "init-ran-again", where)
             else:
-                require(typ is c, "wrong-class-returned", f"{where}: returned an instance of {typ.__name__}")
+                require(type_ok(typ, c), "wrong-class-returned", f"{where}: returned an instance of {typ.__name__}")
                 require(ninit[0] == n0 + 1 and ser == ninit[0], "new-key-returned-old-instance", f"{where}: key {k!r} is new for {names[ci % NC]} but __init__ ran {ninit[0] - n0} times and serial {ser} came back")
                 model[c][k] = (ser, (a, kwargs))
                 if not truth:
@@ -325,12 +346,14 @@ def check_case(case):
                 if k in model[c]:
                     require(ser == model[c][k][0] and ninit[0] == n0, "live-key-returned-other-instance", f"{where}: argument {aa}")
                 else:
-                    require(typ is c and ninit[0] == n0 + 1 and ser == ninit[0], "new-key-returned-old-instance", f"{where}: argument {aa}: __init__ ran {ninit[0] - n0} times, serial {ser}")
+                    require(type_ok(typ, c) and ninit[0] == n0 + 1 and ser == ninit[0], "new-key-returned-old-instance", f"{where}: argument {aa}: __init__ ran {ninit[0] - n0} times, serial {ser}")
                     model[c][k] = (ser, (aa, {}))
             classes.add("260-mappings-at-once")
             mutated_since = True
         elif op == "add":
-            entries = [(c, k) for c in CL for k in model[c]]
+            # (not for the class with the dispatching __new__: add_mapping files the alias under type(obj), and which
+            #  class's table that should be for such an instance is not something the statement or the docs define)
+            entries = [(c, k) for c in CL for k in model[c] if not getattr(c, "POLYMORPHIC", False)]
             if not entries:
                 continue
             c, k0 = entries[ci % len(entries)]
